@@ -24,7 +24,7 @@ use unicode_width::UnicodeWidthChar;
 pub fn world() -> World {
     World {
         name: "full",
-        properties: &["C01", "C17"],
+        properties: &["C01", "C16", "C17"],
         run,
         real: &[
             "terminal::Terminal::run_render (frame dropping, resize, error path) on the real terminal object",
@@ -63,6 +63,11 @@ pub(super) struct VScreen {
     pub gen: u64,
     /// control sequences with a final byte the emulator does not implement
     pub ignored: u64,
+    /// a synchronized update (CSI ? 2026 h … l) is open
+    sync_open: bool,
+    sync_begins: u64,
+    /// first violation of the begin/end alternation
+    pub sync_error: Option<String>,
 }
 
 fn size_of(ws: Winsize) -> TerminalSize {
@@ -71,7 +76,7 @@ fn size_of(ws: Winsize) -> TerminalSize {
 
 impl VScreen {
     pub fn new(ws: Winsize) -> Self {
-        VScreen { screen: Screen::new(size_of(ws), true), utf8: Vec::new(), gen: 0, ignored: 0 }
+        VScreen { screen: Screen::new(size_of(ws), true), utf8: Vec::new(), gen: 0, ignored: 0, sync_open: false, sync_begins: 0, sync_error: None }
     }
 
     pub fn quiescent(&self) -> bool {
@@ -158,6 +163,21 @@ impl VScreen {
                     self.screen.break_wide(idx / w, idx % w);
                     self.screen.grid[idx] = blank.clone();
                 }
+            }
+            b'h' | b'l' if text.starts_with('?') && text[1..].split(';').any(|m| m == "2026") => {
+                // synchronized update: begin and end strictly alternate, a frame is one pair
+                let begin = fin == b'h';
+                if begin {
+                    self.sync_begins += 1;
+                }
+                if begin == self.sync_open && self.sync_error.is_none() {
+                    self.sync_error = Some(if begin {
+                        format!("synchronized update #{} begins while the previous one has not ended", self.sync_begins)
+                    } else {
+                        format!("a synchronized update ends after {} begin marker(s) although none is open: its beginning never arrived", self.sync_begins)
+                    });
+                }
+                self.sync_open = begin;
             }
             // modes, queries, keyboard levels, scroll regions: no effect on the cells
             b'h' | b'l' | b'c' | b't' | b'u' | b'n' | b'p' | b'q' | b'r' => {}
@@ -355,6 +375,7 @@ struct St {
     burst: u32,
     /// typed keys and wake events the handler (or the final drain) has seen
     keys: Vec<char>,
+    overtaken: Option<String>,
     wakes_seen: u64,
     last_wake_event_step: u64,
     /// execute() count when the handler returned last
@@ -576,7 +597,8 @@ fn session(ctx: &Ctx, kernel: &K) -> WorldResult {
         k.src.log(|| text);
         (n, long, plan)
     };
-    let result = guarded(|| wrap_run(&mut wrap, &st, kernel, &counters, max_calls, long, &plan));
+    let judge_screen = ctx.prop == "C01";
+    let result = guarded(|| wrap_run(&mut wrap, &st, kernel, &counters, max_calls, long, &plan, judge_screen));
     if result.is_err() {
         // a poll with infinite timeout never returned: the judgement of that belongs to world `tty`
         {
@@ -635,8 +657,8 @@ fn session(ctx: &Ctx, kernel: &K) -> WorldResult {
                 Ok(Ok(event)) => {
                     if event.is_some() {
                         idle_polls = 0;
-                        let k = kernel.borrow();
-                        note_event(&mut st.borrow_mut(), &k, &event);
+                        let mut k = kernel.borrow_mut();
+                        note_event(&mut st.borrow_mut(), &mut k, &event);
                     } else {
                         idle_polls += 1;
                     }
@@ -647,7 +669,25 @@ fn session(ctx: &Ctx, kernel: &K) -> WorldResult {
         }
     }
     let mut verdict = Ok(());
+    if ctx.prop == "C16" {
+        // frames reach the tty whole: their begin and end markers alternate whatever was dropped
+        let msg = kernel.borrow_mut().vscreen.as_mut().and_then(|vs| vs.sync_error.take());
+        kernel.borrow_mut().src.nontrivial = true;
+        if let Some(msg) = msg {
+            let mut k = kernel.borrow_mut();
+            return_violation(kernel, &mut k);
+            return Err(violation("C16", "C16.torn-frame", "run-render:unbalanced-synchronized-update", format!("the emulator received the frames of a run_render session torn: {msg}")));
+        }
+    }
     if ctx.prop == "C17" {
+        // (on the error path run_render polls once more and discards what that poll returns: a
+        // key lost there belongs to an application that is terminating and is not judged)
+        let msg = st.borrow_mut().overtaken.take().filter(|_| !error_path);
+        if let Some(msg) = msg {
+            let mut k = kernel.borrow_mut();
+            return_violation(kernel, &mut k);
+            return Err(violation("C17", "C17.event-order", "run-render:wake-overtakes-input", msg));
+        }
         let msg = kernel.borrow_mut().ignored_input.take();
         if let Some(msg) = msg {
             let mut k = kernel.borrow_mut();
@@ -740,7 +780,7 @@ fn session(ctx: &Ctx, kernel: &K) -> WorldResult {
 }
 
 /// bookkeeping of an event seen by the application
-fn note_event(s: &mut St, k: &Kernel, event: &Option<TerminalEvent>) {
+fn note_event(s: &mut St, k: &mut Kernel, event: &Option<TerminalEvent>) {
     match event {
         Some(TerminalEvent::Key(key)) => {
             if let KeyName::Char(c) = key.name {
@@ -752,6 +792,9 @@ fn note_event(s: &mut St, k: &Kernel, event: &Option<TerminalEvent>) {
         Some(TerminalEvent::Wake) => {
             s.wakes_seen += 1;
             s.last_wake_event_step = k.steps;
+            if let Some(msg) = wake_order_check(k, s.keys.len()) {
+                s.overtaken.get_or_insert(msg);
+            }
         }
         _ => {}
     }
@@ -768,7 +811,7 @@ thread_local! {
 }
 
 /// run_render with the scripted handler; the outcome is left in OUTCOME
-fn wrap_run(wrap: &mut Wrap, st: &Rc<RefCell<St>>, kernel: &K, counters: &Counters, max_calls: u64, long: bool, plan: &Plan) {
+fn wrap_run(wrap: &mut Wrap, st: &Rc<RefCell<St>>, kernel: &K, counters: &Counters, max_calls: u64, long: bool, plan: &Plan, judge_screen: bool) {
     OUTCOME.with(|o| *o.borrow_mut() = None);
     let result: Result<(), AppErr> = wrap.run_render(|term, event, mut surf| -> Result<TerminalAction<()>, AppErr> {
         // library calls first: they go through the simulated kernel themselves
@@ -782,7 +825,7 @@ fn wrap_run(wrap: &mut Wrap, st: &Rc<RefCell<St>>, kernel: &K, counters: &Counte
         let now = k.now;
         let emu = size_of(k.winsize);
         let vs_gen = k.vscreen.as_ref().unwrap().gen;
-        note_event(&mut s, &k, &event);
+        note_event(&mut s, &mut k, &event);
         if let Some(TerminalEvent::Resize(size)) = &event {
             s.resized = true;
             if size.cells == emu.cells {
@@ -806,7 +849,7 @@ fn wrap_run(wrap: &mut Wrap, st: &Rc<RefCell<St>>, kernel: &K, counters: &Counte
             k.src.log(|| format!("t={}us app: run_render dropped frames ({})", now / US, if frame_queued_first { "the previous frame was already queued" } else { "before the previous frame was rendered" }));
         }
         // ---- oracle: everything consumed -> the screen shows the last rendered frame
-        if all_consumed(pending, &k) {
+        if judge_screen && all_consumed(pending, &k) {
             let feats = features(&s, false);
             if let Some(last) = s.last.as_mut() {
                 if last.valid && last.gen == vs_gen && !last.checked {
